@@ -143,6 +143,21 @@ def _install(fail_at: str | None):
         setattr(obj, attr, w)
         undo.append((obj, attr, orig))
 
+    if fail_at is not None and fail_at.startswith("Write#"):
+        # failure in the middle of whatever stage performs the N-th FileManager.write_file
+        from pyopenapi_gen.context import file_manager as fmm
+        nth = int(fail_at[6:])
+        orig_wf = fmm.FileManager.write_file
+        seen = {"n": 0}
+
+        def wf(self, path, content):
+            seen["n"] += 1
+            if seen["n"] == nth:
+                _REC["stage"] = "Final"
+                raise Injected(f"injected failure at {fail_at}")
+            return orig_wf(self, path, content)
+        fmm.FileManager.write_file = wf
+        undo.append((fmm.FileManager, "write_file", orig_wf))
     wrap(cg.ClientGenerator, "_load_spec", "Load", "Pre")
     wrap(cg, "load_ir_from_spec", "Parse", "Setup")
     wrap(exceptions_emitter.ExceptionsEmitter, "emit", "Exceptions", "Between")
@@ -412,6 +427,9 @@ def oracle(case_obs: dict) -> list[str]:
                          "project root (restored afterwards)")
         # result: match -> success, difference or failure -> raises
         injected = case["fail_at"] is not None and o["outcome"] == "fail:" + case["fail_at"]
+        if str(case["fail_at"]).startswith("Write#") and o["outcome"] == "ok" and case["existing"] in (
+                "different", "coredifferent"):
+            fails.append("existing output differs from what would be generated but generation did not raise")
         if case["fail_at"] is None:
             if case["existing"] in ("different", "coredifferent") and o["outcome"] != "diff":
                 fails.append("existing output differs from what would be generated but generation did not raise")
@@ -518,6 +536,11 @@ def gen_cases(rng, thorough: bool) -> list[dict]:
             for force in (False, True):
                 for ex in ("none", "equal", "different"):
                     cases.append(mk(out, core, force, ex, None))
+    # failures in the middle of a stage (N-th FileManager.write_file raises): judged by the oracle only
+    for _ in range(120 if thorough else 30):
+        out, core = rng.choice(LAYOUTS)
+        cases.append(mk(out, core, rng.random() < 0.4, rng.choice(EXISTING), f"Write#{rng.randint(1, 45)}",
+                        spec=rng.randint(0, 1)))
     # post-processing (real ruff): only existing trees whose diff decision does not depend on ruff's output
     for _ in range(60 if thorough else 14):
         out, core = rng.choice(LAYOUTS)
@@ -552,7 +575,7 @@ def main(chk, replay: dict | None = None) -> int:
     for c in cases:
         i, o = c["input"], c["obs"]
         for key, val in (("by_mode", "force" if i["force"] else "noforce"), ("by_existing", i["existing"]),
-                         ("by_fail_at", str(i["fail_at"])), ("by_outcome", o["outcome"].split(":")[0]),
+                         ("by_fail_at", str(i["fail_at"]).split("#")[0]), ("by_outcome", o["outcome"].split(":")[0]),
                          ("layouts", f"{i['out']}|{i['core']}")):
             dist[key][val] = dist[key].get(val, 0) + 1
         dist["post"] += int(i["post"])
@@ -564,12 +587,18 @@ def main(chk, replay: dict | None = None) -> int:
         chk.sample({"input": c["input"], "outcome": c["obs"]["outcome"], "created": len(c["obs"]["created"]),
                     "deleted": len(c["obs"]["deleted"]), "modified": len(c["obs"]["modified"]),
                     "events": len(c["obs"]["events"])})
+    midway = [c for c in cases if str(c["input"]["fail_at"]).startswith("Write#")]
+    cases = [c for c in cases if not str(c["input"]["fail_at"]).startswith("Write#")]
+    dist["midstage_failures_oracle_only"] = len(midway)
     codes = None
     if chk.model_ok:
         codes = chk.coq_eval("From PG Require Import Lib.Strs Model.GenFS Corr.C10.",
                              "(config * option stage * fs) * obs", [c_case(c) for c in cases], "run", shard=40)
-    for c in cases:  # keep replay files small
+    for c in cases + midway:  # keep replay files small
         c["obs"] = {k: v for k, v in c["obs"].items() if k != "before"}
+    # mid-stage failures are not replayed on the model (its theorems cover every prefix of the operation plan);
+    # with well-formed packages and no post-processing any oracle failure there is a violation
+    chk.decide(midway, None, {}, "oracle only")
     chk.decide(cases, codes, {1: "F10a", 2: "F10b"},
                "Corr.C10.run: generate(model) = outcome, audit events per stage (write/remove/rmtree under the project "
                "root and the temporary directory) and created/deleted paths of the sandbox project root")
